@@ -70,6 +70,8 @@ type FuncContract struct {
 	Unfolds  []Clause // lemma instances assumed at function entry
 	Reveal   []string // opaque spec functions whose definitions this proof needs
 	Forall   []Param  // universally quantified ghost variables (arbitrary but fixed per verification)
+	Callbacks []string // "param mode": how calls of function-typed parameters are treated
+	DefaultCallback string
 	Loops    map[int]*LoopSpec
 	Calls    []*CallSpec
 	Roles    []string
@@ -164,6 +166,7 @@ type Contracts struct {
 	Fields []*FieldDecl
 	Chans  []*ChanDecl
 	Ghosts map[string]*GhostDecl
+	GhostFields map[string]string  // name -> type: ghost attributes of objects (arrays GF_<name>)
 	Globals map[string]*GlobalDecl // pkgpath.Name
 	forallNames map[string]bool
 	Files  []string
@@ -172,7 +175,7 @@ type Contracts struct {
 
 func newContracts() *Contracts {
 	return &Contracts{Funcs: map[string]*FuncContract{}, Specs: map[string]*SpecFn{}, Lemmas: map[string]*Lemma{},
-		Ifaces: map[string]*IfaceContract{}, Ghosts: map[string]*GhostDecl{}, Globals: map[string]*GlobalDecl{}, Sha: map[string]string{}}
+		Ifaces: map[string]*IfaceContract{}, Ghosts: map[string]*GhostDecl{}, GhostFields: map[string]string{}, Globals: map[string]*GlobalDecl{}, Sha: map[string]string{}}
 }
 
 type cline struct {
@@ -301,12 +304,12 @@ func matchParen(s string, i int) int {
 }
 
 var topKeywords = map[string]bool{"func": true, "closure": true, "spec": true, "lemma": true, "interface": true,
-	"field": true, "chan": true, "ghost": true, "axiom": true, "global": true}
+	"field": true, "chan": true, "ghost": true, "axiom": true, "global": true, "ghostfield": true}
 
 var clauseKeywords = map[string]bool{"requires": true, "ensures": true, "modifies": true, "safety": true, "pure": true,
 	"inline": true, "may_panic": true, "witness": true, "lemma": true, "role": true, "holds": true, "acquires": true,
 	"decreases": true, "loop": true, "invariant": true, "unfold": true, "method": true, "reads": true, "trusted": true,
-	"assumed": true, "terminates": true, "call": true, "hint": true, "anchor": true, "reveal": true, "assert": true, "after": true, "forall": true, "inst": true}
+	"assumed": true, "terminates": true, "call": true, "hint": true, "anchor": true, "reveal": true, "assert": true, "after": true, "forall": true, "inst": true, "callback": true}
 
 func firstWord(s string) string {
 	s = strings.TrimSpace(s)
@@ -495,6 +498,13 @@ func (cs *Contracts) parseFuncClauses2(fc *FuncContract, loop *LoopSpec, call *C
 		fc.Reveal = append(fc.Reveal, splitTop(rest, ',')...)
 	case "forall":
 		fc.Forall = append(fc.Forall, parseParams(rest)...)
+	case "callback":
+		f := strings.Fields(rest)
+		if len(f) == 1 {
+			fc.DefaultCallback = f[0]
+		} else {
+			fc.Callbacks = append(fc.Callbacks, rest)
+		}
 	case "inst":
 		if call == nil {
 			fatalf("%s:%d: inst is only allowed in a call section", path, l.line)
@@ -782,6 +792,9 @@ func (cs *Contracts) parseBlock(b []cline, path, pkgPath string) {
 		name := strings.TrimSpace(body[:k])
 		ex := strings.TrimSpace(body[k+1:])
 		cs.Globals[pkgPath+"."+name] = &GlobalDecl{PkgPath: pkgPath, Name: name, Expr: parseExprAt(ex, path, head.line), Text: ex, Tags: tags}
+	case "ghostfield":
+		f := strings.Fields(rest)
+		cs.GhostFields[f[0]] = f[1]
 	case "ghost":
 		f := strings.Fields(rest)
 		g := &GhostDecl{Name: f[0], Type: f[1]}
